@@ -110,10 +110,26 @@ func Main(spec *Spec, opt Options) int {
 	replayNote := ""
 	if !opt.NoReplay && len(pend) > 0 {
 		byPkg := map[string][]string{}
+		outcomes := map[string]*replayOutcome{}
 		for _, p := range pend {
+			if !p.wit && (p.v.Assertion == "nontermination" || p.v.Assertion == "deadlock") {
+				// a hang kills the whole test process: one process per replay, short deadline
+				rel := "./" + strings.TrimPrefix(p.res.Spec.Pkg, "github.com/thanos-io/thanos/")
+				o, note := NativeReplay(opt.Root, rel, []string{p.path}, 30*time.Second)
+				for k, v := range o {
+					outcomes[k] = v
+				}
+				if strings.Contains(note, "build of the harness failed") || strings.Contains(note, "overlay:") {
+					replayNote += note + "; "
+					continue
+				}
+				if _, ok := outcomes[p.path]; !ok {
+					outcomes[p.path] = &replayOutcome{failed: map[string]bool{}, reached: map[string]bool{}, timeout: true}
+				}
+				continue
+			}
 			byPkg[p.res.Spec.Pkg] = append(byPkg[p.res.Spec.Pkg], p.path)
 		}
-		outcomes := map[string]*replayOutcome{}
 		for pkg, paths := range byPkg {
 			o, note := w.nativeReplay(opt.Root, pkg, paths)
 			if note != "" {
